@@ -718,6 +718,26 @@ theorem concurrent_mutual_exclusion (c : LtCfg → Source → Bool) (s : Store) 
   exact Option.some.inj lb
 
 open MJ.MemoConc in
+/-- Progress (no deadlock, no lost wake-up at this granularity): in every reachable state in which some
+    thread still has a lookup to do, some thread can take a step that gets it somewhere (its program
+    counter changes or its to-do list shrinks) — the mutex is always held by a thread that is inside
+    its critical section and can move on, and when it is free any thread with work can take it or is
+    answered by the borrowed tier.  So every fair schedule completes all lookups. -/
+theorem concurrent_progress (c : LtCfg → Source → Bool) (s : Store) (todos : List (List Name)) (sched : List Ev)
+    (hwork : ∃ (i : Nat) (t : Thr), ((Sys.start s todos).run c sched).thr[i]? = some t ∧ t.todo ≠ []) :
+    ∃ j, ((Sys.start s todos).run c sched).Moves c j :=
+  progress_of_inv c _ (run_inv c sched _ (start_inv s todos))
+    (run_held c sched _ (start_inv s todos) (start_held s todos)) hwork
+
+open MJ.MemoConc in
+example : -- thread 1 is blocked (thread 0 holds the mutex, inside the creator): thread 0 moves
+    let c : LtCfg → Source → Bool := fun _ _ => true
+    let s : Store := { loader := some (fun _ => .src 1), cfg := cfgA, borrowed := [], owned := [] }
+    let σ := (Sys.start s [[0], [0]]).run c [.thread 0, .thread 0, .thread 1]
+    σ.lock = some 0 ∧ (σ.stepThr c 1).lock = some 0 ∧ (σ.stepThr c 0).thr.map (·.answers) = [[(0, .found (1, cfgA))], []] := by
+  decide
+
+open MJ.MemoConc in
 /-- Stickiness under concurrency: whatever the threads do and however the outside world changes, an
     entry of the memo map — a loader-backed template once loaded by ANY thread — is never replaced
     while the environment is shared: from any reachable state on, it stays what it is. -/
